@@ -5,10 +5,7 @@ impl<K> IndexSet<K> {
   pub fn extend<I: Iterator<Item = K>>(&mut self, _it: I) { unimplemented!() }
   pub fn get_index(&self, _i: usize) -> Option<&K> { unimplemented!() }
 }
-pub struct IndexMapValuesMut<'a, K, V> { _m: &'a mut IndexMap<K, V> }
-impl<'a, K, V> Iterator for IndexMapValuesMut<'a, K, V> { type Item = &'a mut V; fn next(&mut self) -> Option<&'a mut V> { unimplemented!() } }
 impl<K, V> IndexMap<K, V> {
-  pub fn values_mut(&mut self) -> IndexMapValuesMut<'_, K, V> { unimplemented!() }
   pub fn clear(&mut self) { unimplemented!() }
 }
 pub struct ClonedUrls<'a> { _i: IndexSetIter<'a, Url> }
@@ -30,11 +27,6 @@ pub fn vx_retain<K: Ord, V, F: FnMut(&K, &mut V) -> bool>(map: &mut std::collect
 }
 } // verus!
 verus! {
-#[verifier::external_type_specification]
-#[verifier::external_body]
-#[verifier::reject_recursive_types(K)]
-#[verifier::accept_recursive_types(V)]
-pub struct ExIndexMapValuesMut<'a, K, V>(IndexMapValuesMut<'a, K, V>);
 
 pub assume_specification<K>[ IndexSet::<K>::with_capacity ](n: usize) -> (r: IndexSet<K>)
     ensures is_seq(r).len() == 0;
@@ -57,17 +49,6 @@ pub assume_specification<'a, K>[ IndexSet::<K>::get_index ](s: &'a IndexSet<K>, 
     ensures
         i < is_seq(*s).len() ==> r == Some(&is_seq(*s)[i as int]),
         i >= is_seq(*s).len() ==> r is None;
-
-/// `map.values_mut()`: mutable references to the values in order; the map's values afterwards are
-/// the final values of those references, keys unchanged
-pub assume_specification<'a, K, V>[ IndexMap::<K, V>::values_mut ](m: &'a mut IndexMap<K, V>) -> (r: IndexMapValuesMut<'a, K, V>)
-    ensures
-        r.obeys_prophetic_iter_laws(),
-        r.remaining().len() == im_vals(*old(m)).len(),
-        forall|i: int| 0 <= i < r.remaining().len() ==> *(#[trigger] r.remaining()[i]) == im_vals(*old(m))[i],
-        forall|i: int| 0 <= i < r.remaining().len() ==> *final(#[trigger] r.remaining()[i]) == im_vals(*final(m))[i],
-        im_keys(*final(m)) == im_keys(*old(m)),
-        im_vals(*final(m)).len() == im_vals(*old(m)).len();
 
 pub assume_specification<K, V>[ IndexMap::<K, V>::clear ](m: &mut IndexMap<K, V>)
     ensures im_vals(*final(m)).len() == 0, im_keys(*final(m)).len() == 0;
